@@ -629,6 +629,12 @@ class Sym:
     def __str__(self):
         return self.__format__("")
 
+    def __floor__(self):
+        """math.floor / np.floor of a real: the integer part as a real-valued scalar"""
+        if self.is_const():
+            return Sym.const(math.floor(self.v))
+        return Sym(z3.ToReal(z3.ToInt(self.z())))
+
     def is_integer(self):
         """float.is_integer"""
         if self.is_const():
